@@ -194,6 +194,13 @@ Definition k_node_sock := [110;111;100;101;95;115;111;99;107]%N.
 Definition dispatcher_attrs : list (list N) :=
   [k_cause; k_effects; k_complete_channels; k_success_channels; k_node_call_id; k_node_sock].
 
+Inductive hres := HNone | HVal (r : json) | HRaise (late : bool).
+
+(* what the caller sees as the value of a failed remote event: the peer serialises the
+   (type, exception, traceback) triple with default=str; the text is environment dependent and is
+   treated as one opaque value *)
+Definition JERR : json := JStr [60; 101; 114; 114; 111; 114; 62]%N.
+
 Section Meta.
   Variable excl : list (list N).     (* META_EXCLUDE *)
 
@@ -287,13 +294,14 @@ Section Meta.
   Variable loads : list N -> option (option json).  (* json.loads: Some None = ValueError; None = miss *)
   Variable D : list N.
   Variable fw_send fw_recv : event -> bool.     (* firewalls: true = allowed *)
-  Variable handler : event -> option (option json).
-    (* B's application: None = no handler for the name (nothing runs, result null);
-       Some None = the handler runs and raises; Some (Some r) = runs and returns r *)
+  (* B's application on a dispatched event: HNone = no handler for the name (nothing runs, result null);
+     HVal r = the handlers run and the value is r; HRaise late = a handler raises - at once (late = false)
+     or in a later tick, after a yield of a generator handler (late = true) *)
+  Variable handler : event -> hres.
   Variable b_chan : json.                       (* channel of B's Protocol component *)
 
   Record call := { c_fin : bool;                 (* remote_finish set or rejected by send firewall *)
-                   c_res : bool; c_val : json;   (* Value.result / Value._value of ev.value *)
+                   c_res : bool; c_val : json;   (* Value._collecting / Value._value of ev.value *)
                    c_err : option json }.        (* ev.errors *)
   Definition call0 := {| c_fin := false; c_res := false; c_val := JNull; c_err := None |}.
 
@@ -357,67 +365,77 @@ Section Meta.
   Definition no_reply (id : json) : bool :=     (* getattr(e, 'node_call_id', False) is not False *)
     match id with JBool false => true | _ => false end.
 
-  (* -> (dispatched events, bytes written at once, bytes written after the dispatch, abort, bad).
-     A rejection is answered from inside add_buffer; the result of a dispatched event is written two
-     queue passes later (event -> <name>_success on node_result -> write), i.e. after every answer
-     produced by the same read. *)
-  Definition b_packet (j : json) : list event * list N * list N * bool * bool :=
-    if is_miss j then ([], [], [], false, true) else
+  (* -> (dispatched events, answers written as (class, bytes), abort, bad).  The classes order the answers
+     produced by one read on the wire:
+       0  a rejection is answered from inside add_buffer;
+       1  the result of a dispatched event is written two queue passes later
+          (event -> <name>_success on node_result -> write);
+       2  the error answer of an event whose handler raised is written after that
+          (event -> exception -> <name>_complete on node_result -> write);
+       3  when a generator handler raises after a yield, in a later tick. *)
+  Definition b_packet (j : json) : list event * list (nat * list N) * bool * bool :=
+    if is_miss j then ([], [], false, true) else
     match is_value j with
     | Some o =>
         match load_value o with
-        | LvAbort => ([], [], [], true, false)
-        | LvOk _ id _ _ => ([], [], [], negb (hashable id), false)   (* __events.get(id): TypeError *)
-        | LvDrop => ([], [], [], false, false)
+        | LvAbort => ([], [], true, false)
+        | LvOk _ id _ _ => ([], [], negb (hashable id), false)   (* __events.get(id): TypeError *)
+        | LvDrop => ([], [], false, false)
         end
     | None =>
         match load_event j with
-        | None => ([], [], [], false, false)
+        | None => ([], [], false, false)
         | Some (e, id) =>
             if fw_recv e then
-              (* event.success = True; fire(event, *event.channels) *)
+              (* event.success = True; event.complete = True; fire(event, *event.channels) *)
               let e' := {| ename := ename e; eargs := eargs e; ekwargs := ekwargs e; esuccess := true;
                            efailure := efailure e; enotify := enotify e;
                            echannels := match echannels e with [] => [b_chan] | l => l end;
                            eattrs := eattrs e |} in
-              match handler e' with
-              | Some None => ([e'], [], [], false, false)   (* handler raised: no success event, no result *)
-              | h => let log := match h with None => [] | Some _ => [e'] end in
-                     let r := match h with Some (Some r) => r | _ => JNull end in
-                     if no_reply id then (log, [], [], false, false) else
-                     match packet (value_data id (JBool false) r e) with
-                     | Some b => (log, [], b, false, false)
-                     | None => (log, [], [], false, true)
-                     end
+              let h := handler e' in
+              let log := match h with HNone => [] | _ => [e'] end in
+              let cls := match h with HRaise true => 3 | HRaise false => 2 | _ => 1 end in
+              let r := match h with HVal r => r | HRaise _ => JERR | HNone => JNull end in
+              let er := match h with HRaise _ => true | _ => false end in
+              if no_reply id then (log, [], false, false) else
+              match packet (value_data id (JBool er) r e) with
+              | Some b => (log, [(cls, b)], false, false)
+              | None => (log, [], false, true)
               end
             else match packet (value_data id (JBool false) JNull e) with
-                 | Some b => ([], b, [], false, false)
-                 | None => ([], [], [], false, true)
+                 | Some b => ([], [(0, b)], false, false)
+                 | None => ([], [], false, true)
                  end
         end
     end.
 
-  Fixpoint b_packets (js : list json) : list event * list N * list N * bool * bool :=
+  Fixpoint b_packets (js : list json) : list event * list (nat * list N) * bool * bool :=
     match js with
-    | [] => ([], [], [], false, false)
-    | j :: r => let '(l, o, ol, ab, bd) := b_packet j in
-                if ab then (l, o, ol, true, bd)
-                else let '(l', o', ol', ab', bd') := b_packets r in
-                     (l ++ l', o ++ o', ol ++ ol', ab', bd || bd')
+    | [] => ([], [], false, false)
+    | j :: r => let '(l, o, ab, bd) := b_packet j in
+                if ab then (l, o, true, bd)
+                else let '(l', o', ab', bd') := b_packets r in
+                     (l ++ l', o ++ o', ab', bd || bd')
     end.
+
+  Definition pick (k : nat) (rs : list (nat * list N)) : list N :=
+    concat (map snd (filter (fun p => Nat.eqb (fst p) k) rs)).
 
   Definition b_read (s : st) (data : list N) : st :=
     let '(js, buf) := feed json parse D (b_buf s) data in
-    let '(l, o, ol, ab, bd) := b_packets js in
+    let '(l, o, ab, bd) := b_packets js in
     {| a_nid := a_nid s; a_issued := a_issued s; a_nores := a_nores s; a_pend := a_pend s; a_calls := a_calls s; a_buf := a_buf s;
-       b_buf := if ab then [] else buf; b_log := b_log s ++ l; wab := wab s; wba := wba s ++ o ++ ol;
+       b_buf := if ab then [] else buf; b_log := b_log s ++ l; wab := wab s;
+       wba := wba s ++ pick 0 o ++ pick 1 o ++ pick 2 o ++ pick 3 o;
        bad := bad s || bd |}.
 
   (* --- A: Value.setValue on ev.value, ev.errors, ev.remote_finish, setattr of the meta *)
   Definition set_value (c : call) (v er : json) (meta : list (list N * json)) : call :=
+    (* Value.setValue: the first value is kept as it is (a list result is one result); from the second
+       value on the results are collected in a list ([c_res] = Value._collecting) *)
     let val := if c_res c then match c_val c with JArr l => JArr (l ++ [v]) | x => JArr [x; v] end
-               else v in
-    let res := c_res c || match v with JNull => false | _ => true end in
+               else match c_val c with JNull => v | x => JArr [x; v] end in
+    let res := c_res c || match c_val c with JNull => false | _ => true end in
     {| c_fin := true; c_res := res; c_val := val;
        c_err := match get k_errors meta with Some x => Some x | None => Some er end |}.
 
